@@ -7,7 +7,7 @@ import datetime
 import decimal
 
 from .. import registry
-from ..symex import Sym, Falsy, T, SList, Engine, Raise, show, walk_terms
+from ..symex import Sym, Falsy, T, SList, Engine, Raise, show, gname, contains
 from ..loader import AnalysisError, FuncInfo, ClassInfo, loc
 from ..report import RuleResult
 
@@ -51,7 +51,7 @@ def rule_implicitcast(P) -> RuleResult:
                         return OBJ
                     if base in (L0, R0):
                         return _t
-                    if isinstance(base, T) and base.op == 'call':
+                    if isinstance(base, T) and base.op == 'new':
                         return Sym('CASTED')          # the result of a cast function: a typed node
                 if base == NODE and attr in ('left', 'right'):
                     return Sym('AST_' + attr)
@@ -67,7 +67,12 @@ def rule_implicitcast(P) -> RuleResult:
                     return reg.types_map.get(tmap.get(args[0], args[0]), args[1] if len(args) > 1 else None)
                 if f == 'types.function_lookup' and len(args) == 3:
                     _lk.append(args[1])
-                    return T('call', ('CASTFN', (args[1],), ()))
+                    # an overload taking an untyped (object) operand exists for every cast in the registry: the lookup finds it
+                    if any(f.name == args[1] and len(f.intypes) == 1 and (f.intypes[0] is object or f.intypes[0] is registry.ANY) for f in reg.funcs):
+                        return T('new', ('CASTFN', args[1]))
+                    return None
+                if isinstance(fval, T) and fval.op == 'new' and fval.args[0] == 'CASTFN':
+                    return T('new', ('cast', fval.args[1], args))     # instantiating the cast evaluator: an object, never None
                 if f == 'types.name' or f.endswith('.lower'):
                     return 'x'
                 if f == 'type':
@@ -116,7 +121,6 @@ def rule_implicitcast(P) -> RuleResult:
                                  f'rejected with a CompilationError, got {p.outcome} after casts {lookups}', loc(fi))
                         break
                 else:
-                    casted = T('call', ('CASTFN(%r)' % want, (_attr(SELF, 'context'), None), ()))
                     ok = p.outcome == 'return' and lookups[:1] == [want]
                     if ok:
                         # the cast operand takes the place of the untyped one, the other stays
@@ -125,8 +129,8 @@ def rule_implicitcast(P) -> RuleResult:
                         if ok:
                             a, b = v.args[1]
                             cast_side, other_side = (a, b) if side == 'left' else (b, a)
-                            ok = other_side == (R0 if side == 'left' else L0) and isinstance(cast_side, T) and cast_side.op == 'call' \
-                                and (L0 if side == 'left' else R0) in set(walk_terms(cast_side))
+                            ok = other_side == (R0 if side == 'left' else L0) and isinstance(cast_side, T) and cast_side.op == 'new' \
+                                and contains(cast_side, L0 if side == 'left' else R0)
                     if not ok:
                         res.fail(construct, f'implicitcast:{side}:{t.__name__}',
                                  f'{label}: the untyped operand must be cast with {want}() '
@@ -229,7 +233,7 @@ def rule_idxbound(P) -> RuleResult:
             return NotImplemented
 
         def on_isinstance(v, c, ex):
-            cs = show(c)
+            cs = gname(c)
             if cs.endswith('int'):
                 return type(v) is int
             if cs.endswith('Column'):
@@ -328,6 +332,7 @@ def rule_idxbound(P) -> RuleResult:
                 ok &= judge('PIVOT BY', fi, pos, g, want, f'with {N} targets' + (' and an invisible GROUP BY target' if hidden else ''))
     if ok:
         res.ok({'clause': 'PIVOT BY', 'positions': [0, 1, N, N + 1, -1], 'targets': N, 'with_invisible_target': [False, True]})
+    targets_flow_cases(P, res, 'idxbound')
     return res
 
 
@@ -347,7 +352,7 @@ def naming_cases(P, res):
                 return NotImplemented
 
             def on_isinstance(v, c, ex, _c=is_col):
-                return _c if show(c).endswith('Column') else False
+                return _c if gname(c).endswith('Column') else False
 
             def on_call(fname, fval, recv, args, kwargs, ex, node, _c=is_col):
                 if fname == 'getattr' and len(args) >= 2 and args[0] == EXPR and args[1] == 'name':
@@ -451,6 +456,9 @@ def set_name_cases(P, res):
                 if f in ('print',):
                     ex.events.append(('print', args))
                     return None
+                if f.endswith('.error'):
+                    ex.events.append(('call', 'error', args, kwargs))
+                    return None
                 return NotImplemented
 
             def oracle(term, ex, _v=valid):
@@ -477,5 +485,223 @@ def set_name_cases(P, res):
                     if ncomp == 3 and (reflect or not errors):
                         ok = False
                         res.fail(ds.fq, 'settings:arity:3', '.set with too many arguments must report an error and change nothing', loc(ds))
+    # the no-argument form lists every setting; an invalid value is reported, not propagated
+    def on_call0(fname, fval, recv, args, kwargs, ex, node):
+        f = str(fname)
+        if f == 'print':
+            ex.events.append(('print', args))
+            return None
+        if f.endswith('.error'):
+            ex.events.append(('call', 'error', args, kwargs))
+            return None
+        return NotImplemented
+    listed = False
+    for p in Engine(P, on_call=on_call0).paths(ds, {'self': SHELL, ds.params[1]: ''}):
+        loops = [e for e in p.events if e[0] == 'loop-begin' and e[1] == _attr(SHELL, 'settings')]
+        gets = [e for e in p.events if e[0] == 'call' and str(e[1]).endswith('.getstr') and e[2] and isinstance(e[2][0], T) and e[2][0].op == 'elem']
+        prints = [e for e in p.events if e[0] == 'print']
+        if loops and gets and prints:
+            listed = True
+    if not listed:
+        ok = False
+        res.fail(ds.fq, 'settings:lists', '.set without arguments no longer lists every setting with its value', loc(ds))
+
+    def on_call1(fname, fval, recv, args, kwargs, ex, node):
+        f = str(fname)
+        if f == 'shlex.split':
+            return SList(['NAME', 'VALUE'])
+        if f.endswith('.setstr'):
+            raise Raise('ValueError', ())
+        if f.endswith('.error'):
+            ex.events.append(('call', 'error', args, kwargs))
+            return None
+        return NotImplemented
+    for p in Engine(P, on_call=on_call1, oracle=lambda t, ex: True if isinstance(t, T) and t.op == 'cmp' and t.args[0] == 'in' else
+                    False if isinstance(t, T) and t.op == 'cmp' and t.args[0] == 'not in' else None).paths(ds, {'self': SHELL, ds.params[1]: 'NAME VALUE'}):
+        if p.outcome == 'raise' or not [e for e in p.events if e[0] == 'call' and e[1] == 'error']:
+            ok = False
+            res.fail(ds.fq, 'settings:reports', '.set with an invalid value must report the error; the ValueError of the parser '
+                     + ('propagates' if p.outcome == 'raise' else 'is swallowed silently'), loc(ds))
     if ok:
-        res.ok({'method': ds.fq, 'cases': 6, 'name_validated_before_reflection': True})
+        res.ok({'method': ds.fq, 'cases': 8, 'name_validated_before_reflection': True, 'lists_all': True, 'invalid_value_reported': True})
+
+
+def rule_naming(P):
+    res = RuleResult('R-HIDDEN')
+    naming_cases(P, res)
+    return res
+
+
+def rule_rewrites(P):
+    res = RuleResult('R-METAREWRITE')
+    rewrite_cases(P, res)
+    return res
+
+
+def rule_setname(P):
+    res = RuleResult('R-SETTINGS')
+    set_name_cases(P, res)
+    return res
+
+
+# ----------------------------------------------------------------------
+# the targets list through _compile_select: what each clause resolver is given, what the query gets
+
+def select_flow(P):
+    """-> list of (path, snapshots) where snapshots maps 'group_by' | 'order_by' | 'pivot_by' | 'query' to the items of the
+    targets list handed over at that point."""
+    fi = _method(P, '_compile_select')
+    NODE = Sym('SELECT')
+    out = []
+    T1, T2, G1, O1 = Sym('TARGET1'), Sym('TARGET2'), Sym('GROUP_HELPER'), Sym('ORDER_HELPER')
+    snaps = {}
+
+    def snap(v):
+        return list(v.items) if isinstance(v, SList) and not v.opaque_tail else v
+
+    def on_call(fname, fval, recv, args, kwargs, ex, node):
+        f = str(fname).split('.')[-1]
+        if f == '_compile_from':
+            return Sym('C_FROM')
+        if f == '_compile_targets':
+            return SList([T1, T2])
+        if f == '_compile':
+            return Sym('C_WHERE')
+        if f == 'is_aggregate':
+            return False
+        if f == '_compile_group_by':
+            snaps.setdefault(id(ex), {})['group_by'] = snap(args[1]) if len(args) > 1 else None
+            return T('tuple', (SList([G1]), None, None))
+        if f == '_compile_order_by':
+            snaps.setdefault(id(ex), {})['order_by'] = snap(args[1]) if len(args) > 1 else None
+            return T('tuple', (SList([O1]), Sym('ORDER_SPEC')))
+        if f == '_compile_pivot_by':
+            snaps.setdefault(id(ex), {})['pivot_by'] = snap(args[1]) if len(args) > 1 else None
+            return None
+        if f == 'EvalQuery':
+            snaps.setdefault(id(ex), {})['query'] = [snap(a) for a in args] + [(k, snap(v)) for k, v in kwargs]
+            return T('new', ('EvalQuery', args))
+        return NotImplemented
+    paths = Engine(P, on_call=on_call).paths(fi, {'self': SELF, fi.params[1]: NODE})
+    # snapshots are keyed by the Exec that produced them; recover through the events' owner: one Exec per path, in order
+    return fi, paths, snaps, (T1, T2, G1, O1)
+
+
+def targets_flow_cases(P, res, part):
+    fi, paths, snaps, (T1, T2, G1, O1) = select_flow(P)
+    merged = {}
+    for s in snaps.values():
+        for k, v in s.items():
+            merged.setdefault(k, []).append(v)
+    if not merged.get('group_by') or not merged.get('order_by') or not merged.get('query'):
+        raise AnalysisError(f'{fi.fq}: the clause resolvers are no longer called from here: {sorted(merged)}')
+    if part == 'idxbound':
+        bad = [v for v in merged['group_by'] if v != [T1, T2]]
+        if bad:
+            res.fail(f'{fi.fq}:group-by-call', 'idxbound:order', f'GROUP BY positions are resolved on {bad[0]}: they must be resolved on '
+                     f'the targets of the SELECT list only, before any invisible target is added', loc(fi))
+        else:
+            res.ok({'clause': 'GROUP BY', 'resolved_on': 'targets of the SELECT list only'})
+        return
+    ok = True
+    for v in merged['order_by']:
+        if v != [T1, T2, G1]:
+            ok = False
+            res.fail(f'{fi.fq}:targets-list', 'hidden:position', f'ORDER BY is resolved on {v}: the visible targets must come first, in '
+                     f'their order, followed by the GROUP BY helper targets', loc(fi))
+    for v in merged['query']:
+        lists = [x for x in v if isinstance(x, list)]
+        if [T1, T2, G1, O1] not in lists:
+            ok = False
+            res.fail(f'{fi.fq}:targets-list', 'hidden:position', f'the compiled query is given the targets {lists[:1]}: the visible targets '
+                     f'must come first, in their order, and the helper targets of GROUP BY and ORDER BY are appended after them', loc(fi))
+    for v in merged.get('pivot_by', []):
+        if v != [T1, T2, G1, O1]:
+            ok = False
+            res.fail(f'{fi.fq}:targets-list', 'hidden:position', f'PIVOT BY is resolved on {v}, not on the final targets list', loc(fi))
+    if ok:
+        res.ok({'site': fi.fq, 'helpers': 'appended after the visible targets', 'resolvers_checked': sorted(merged)})
+
+
+def helper_target_cases(P, res):
+    """New expressions in GROUP BY / ORDER BY / HAVING become invisible targets (name None) appended after the existing ones,
+    and the clause refers to them by their index in the extended list; an expression equal to an existing target reuses it."""
+    N = 3
+    EXPR_AST, HAVING_AST, CEXPR, CHAVING = Sym('EXPR_AST'), Sym('HAVING_AST'), Sym('C_EXPR'), Sym('C_HAVING')
+
+    def run(fi, env, attrs, found):
+        def on_attr(base, attr, ex):
+            if (base, attr) in attrs:
+                return attrs[(base, attr)]
+            return NotImplemented
+
+        def on_isinstance(v, c, ex):
+            return False if v == EXPR_AST else NotImplemented
+
+        def on_call(fname, fval, recv, args, kwargs, ex, node):
+            f = str(fname).split('.')[-1]
+            if f == '_compile':
+                return CHAVING if args and args[0] == HAVING_AST else CEXPR
+            if f == 'is_aggregate':
+                return bool(args) and args[0] == CHAVING
+            if f == '_check_aggregates':
+                return None
+            if f == 'issubclass':
+                return True
+            if f == 'index' and isinstance(recv, SList):
+                if found is None:
+                    raise Raise('ValueError', ())
+                return found
+            if f == 'EvalTarget':
+                return T('new', ('EvalTarget', args))
+            return NotImplemented
+        return Engine(P, on_attr=on_attr, on_isinstance=on_isinstance, on_call=on_call).paths(fi, env)
+
+    def helpers_ok(new, n_expected):
+        return isinstance(new, SList) and len(new.items) == n_expected and all(
+            isinstance(x, T) and x.op == 'new' and x.args[0] == 'EvalTarget' and len(x.args[1]) == 3 and x.args[1][1] is None for x in new.items)
+    ok = True
+    for clause, meth in (('GROUP BY', '_compile_group_by'), ('ORDER BY', '_compile_order_by')):
+        fi = _method(P, meth)
+        for found in (None, 1):
+            for having in ((False, True) if clause == 'GROUP BY' else (False,)):
+                tg, attrs = _targets(N, 0)
+                if clause == 'GROUP BY':
+                    GB = Sym('GROUP_BY')
+                    attrs[(GB, 'columns')] = SList([EXPR_AST])
+                    attrs[(GB, 'having')] = HAVING_AST if having else None
+                    env = {'self': SELF, fi.params[1]: GB, fi.params[2]: SList(tg)}
+                else:
+                    SPEC = Sym('SPEC')
+                    attrs[(SPEC, 'column')] = EXPR_AST
+                    attrs[(SPEC, 'ordering')] = Sym('ORDERING')
+                    env = {'self': SELF, fi.params[1]: SList([SPEC]), fi.params[2]: SList(tg)}
+                for p in run(fi, env, attrs, found):
+                    label = f'{clause} by an expression that {"matches target 2" if found is not None else "is not among the targets"}' \
+                        + (' with a HAVING clause' if having else '')
+                    construct = f'{fi.fq}:new-targets'
+                    if p.outcome != 'return' or not (isinstance(p.value, T) and p.value.op == 'tuple'):
+                        ok = False
+                        res.fail(construct, 'hidden:helper', f'{label}: {p.outcome} {show(p.value)[:60]}', loc(fi))
+                        continue
+                    new = p.value.args[0]
+                    n_new = (0 if found is not None else 1) + (1 if having else 0)
+                    want_index = found if found is not None else N
+                    if not helpers_ok(new, n_new):
+                        ok = False
+                        res.fail(construct, 'hidden:named' if isinstance(new, SList) and len(new.items) == n_new else 'hidden:position',
+                                 f'{label}: the function returns the new targets {show(new)[:120]}; expected {n_new} invisible target(s) '
+                                 f'(name None) that come after the {N} existing ones', loc(fi))
+                        continue
+                    ref = p.value.args[1]
+                    got_index = None
+                    if isinstance(ref, SList) and len(ref.items) == 1:
+                        got_index = ref.items[0].args[0] if clause == 'ORDER BY' and isinstance(ref.items[0], T) else ref.items[0]
+                    if got_index != want_index:
+                        ok = False
+                        res.fail(construct, 'hidden:index', f'{label}: the clause refers to target index {got_index}, must be {want_index}', loc(fi))
+                    if having and p.value.args[2] != N + (0 if found is not None else 1):
+                        ok = False
+                        res.fail(construct, 'hidden:having-index', f'{label}: HAVING refers to target index {p.value.args[2]}', loc(fi))
+    if ok:
+        res.ok({'sites': ['_compile_group_by', '_compile_order_by'], 'helper_targets': 'invisible (name None), appended, referred to by index', 'cases': 6})
